@@ -104,10 +104,10 @@ def parse_units(path):
                     elif mm:
                         sec = ("at", "loop_" + mm.group(2), int(mm.group(1)))
                     else:
-                        mm = re.match(r'^(before|after)\s+"(.*)"$', rest)
+                        mm = re.match(r'^(before|after)\s+"(.*)"(?:\s+#(\d+))?$', rest)
                         if not mm:
                             raise UnitError("%s:%d: bad anchor %r" % (path, ln, rest))
-                        sec = ("at", mm.group(1), mm.group(2))
+                        sec = ("at", mm.group(1), (mm.group(2), int(mm.group(3)) if mm.group(3) else None))
                 else:
                     raise UnitError("%s:%d: unknown section %r" % (path, ln, m.group(1)))
                 continue
